@@ -10,6 +10,7 @@ mkdir -p $dst
 if [ -d "$wt/SEEDED" ]; then cp $wt/SEEDED/patch.diff $wt/SEEDED/demo.py $wt/SEEDED/notes.md $dst/ 2>/dev/null; cp $wt/SEEDED/fuzz.py $dst/ 2>/dev/null; fi
 cd /repo || exit 2
 [ -n "$(git status --porcelain --untracked-files=no)" ] && { echo "/repo dirty"; exit 2; }
+keep=$(mktemp -d /var/tmp/evidence-keep.XXXXXX); cp -a /verif/evidence/. "$keep"/
 {
 echo "== demo on original /repo"
 PYTHONPATH=/repo PYTHONWARNINGS=ignore timeout 600 /venv/bin/python $dst/demo.py 2>&1 | tail -3; echo "demo_original_exit=$?"
@@ -26,4 +27,5 @@ for c in $id "$@"; do
 done
 } > $dst/eval.txt 2>&1
 git -C /repo checkout -- .
+cp -a "$keep"/. /verif/evidence/; rm -rf "$keep"
 cat $dst/eval.txt
